@@ -227,7 +227,11 @@ func c14R2(c *Ctx) {
 			if f == nil {
 				return false
 			}
-			tn := namedOf(baseOfFieldLoad(v).Type())
+			base := baseOfFieldLoad(v)
+			if base == nil {
+				return false
+			}
+			tn := namedOf(base.Type())
 			return tn != nil && tn.Name() == "executableWorkflow"
 		}
 		var fromPrepared func(v ssa.Value, d int) bool
@@ -380,7 +384,9 @@ func (c *Ctx) freshness(v ssa.Value, field string, dagPrepared *types.Var) (stri
 			if f == dagPrepared {
 				return "the prepared DAG itself (not a clone)", false
 			}
-			if tn := namedOf(baseOfFieldLoad(x).Type()); tn != nil && tn.Name() == "executableWorkflow" {
+			if base := baseOfFieldLoad(x); base == nil {
+				// not a plain field load
+			} else if tn := namedOf(base.Type()); tn != nil && tn.Name() == "executableWorkflow" {
 				return "the prepared workflow's read-only " + f.Name(), true
 			}
 		}
